@@ -31,7 +31,6 @@ def run(ctx):
     ftot, fsamples = L.fixtures(ctx, ["C03."], nrays=300 if q else 20000, nwalks=250 if q else 6000,
                                 nprobes=0, maxpar=8 if q else 12, nshards=6 if q else 12)
     ctx.coverage.update({
-        "states": st, "transitions": tr,
         "traces_validated_against_impl": tot["traces"] + ftot["fixtures"],
         "samples": samples + fsamples,
         "evaluations": tot["calls"] + tot["inits"] + ftot["stat"].get("judged", 0),
@@ -50,6 +49,11 @@ def run(ctx):
         "fixtures": {k: ftot[k] for k in ("fixtures", "records", "oracle_queries", "discarded", "facts", "skipped", "stat",
                                            "dev", "other_clauses")},
     })
+    if st:
+        ctx.coverage.update({"states": st, "transitions": tr})
+    knobs = {k: os.environ[k] for k in ("VERIF_NAV_WORLDS", "VERIF_NAV_SKIP", "VERIF_NAV_FIXTURES") if os.environ.get(k)}
+    if knobs:
+        ctx.coverage["restricted_by_debug_knobs"] = knobs
     ctx.assumptions += [
         "lattice worlds: axis-aligned planes at even integers, signed-permutation daughters, tracks stop at cell centres or on "
         "boundaries, six axis directions, on a boundary only +-normal directions (tangent directions are outside the property); "
